@@ -5,6 +5,11 @@
 (* verdict. Only the dimensions a kind reads are multiplied (AppResponses).    *)
 EXTENDS HttpApi, TLC, Json
 
+\* The rows where an error is several kinds at once (Code() and Status()) or reaches Error behind another value
+\* (pointer, embedding struct, wrapper of the errors package) are crossed with these smaller sets only: what they add
+\* is the dispatch, which reads neither the number nor the text.
+CONSTANTS XCodes, XStatuses, XMessages
+
 Cbk(p, n) == [present |-> p, name |-> n]
 QuickCallbacks    == {Cbk(FALSE, ""), Cbk(TRUE, ""), Cbk(TRUE, "cb"), Cbk(TRUE, "a.b.c"), Cbk(TRUE, "a%sb")}
 ThoroughCallbacks == QuickCallbacks \cup
@@ -20,6 +25,20 @@ ThoroughStatuses == QuickStatuses \cup {401, 403, 418, 429, 502, 599}
 GenMessages == {"text", "quotes", "empty", "jsonarr", "jsonobj-nocode", "jsonobj-strcode"}
 GenServers  == {"Oryx", "VerifSrv/1.0 (x)"}
 GenForms    == {"handler", "write"}
+GenVias     == AllVias
+DirectOnly  == {"direct"}
+QuickXCodes       == {"1", "-9223372036854775808"}
+ThoroughXCodes    == QuickXCodes \cup {"-1", "4294967296"}
+QuickXStatuses    == {404, 503}
+ThoroughXStatuses == QuickXStatuses \cup {400, 500}
+QuickXMessages    == {"text", "jsonobj-strcode"}
+ThoroughXMessages == QuickXMessages \cup {"empty", "jsonobj-nocode"}
+
+Crossed(a) == a.via # "direct" \/ a.kind = "appErrorWithStatus"
+GenRows == {a \in AppResponses :
+              Crossed(a) => /\ a.via # "direct" => a.code \in XCodes \cup {"0"}
+                            /\ a.status \in XStatuses \cup {0}
+                            /\ a.msg \in XMessages \cup {"-"}}
 
 V(n, t)  == [name |-> n, k |-> 0, marshalable |-> TRUE, jtype |-> t]
 U(n)     == [name |-> n, k |-> 0, marshalable |-> FALSE, jtype |-> "-"]
@@ -50,7 +69,7 @@ QuickValues    == FixedValues \cup Rand(6) \cup RandBad(4)
 ThoroughValues == FixedValues \cup Rand(1000) \cup RandBad(300)
 
 \* a handler object at the end of the first request it serves
-GenInit == /\ pc = "done" /\ srv \in Servers /\ req \in Callbacks /\ app \in AppResponses
+GenInit == /\ pc = "done" /\ srv \in Servers /\ req \in Callbacks /\ app \in GenRows
            /\ obj = [made |-> app, form |-> "handler"] /\ cell = app.val /\ ver = 0
            /\ resp = Handle(srv, req, app)
            /\ verdict = ApiVerdict(resp)
